@@ -131,9 +131,12 @@ def _hdr(t, length, xid):
   return struct.pack("!BBHL", 1, t, length, xid)
 
 
-def enc_packet_out(frame, in_port, actions, xid):
+def enc_packet_out(frame, in_port, actions, xid, buffer_id=None):
   acts = b"".join(enc_action(a) for a in actions)
-  return _hdr(OFPT_PACKET_OUT, 16 + len(acts) + len(frame), xid) + struct.pack("!LHH", NO_BUFFER, in_port, len(acts)) + acts + frame
+  if buffer_id is not None:
+    frame = b""                        # the switch holds the frame
+  return (_hdr(OFPT_PACKET_OUT, 16 + len(acts) + len(frame), xid)
+          + struct.pack("!LHH", NO_BUFFER if buffer_id is None else buffer_id, in_port, len(acts)) + acts + frame)
 
 
 def enc_flow_mod(command, wildcards, in_port, actions, xid, priority=0x8000):
@@ -622,6 +625,9 @@ def _run(case, sw, out, nt):
   rx_hi = {p: [0, 0] for p in cfg}
   tx = {p: [0, 0] for p in cfg}
   flow = None
+  # buffer_id -> (frame the packet-in showed, its in_port, origin), from judged deliveries only; origin is "action"
+  # (output:CONTROLLER), "miss" (a frame that arrived on a port) or "table-miss" (miss of a packet-out's OFPP_TABLE lookup)
+  buffers = {}
 
   for si, step in enumerate(case["steps"]):
     mode = step["mode"]
@@ -639,15 +645,32 @@ def _run(case, sw, out, nt):
       out.label("fault-armed")
       continue
     port_state = port_state_now()
-    frame = step["frame"]
-    in_port = step["in_port"]
+    buffer_id = None
+    if mode == "buffer_out":
+      # packet-out naming a buffer an earlier packet-in announced: the switch must apply the list to the frame
+      # exactly as it was shown to the controller
+      if not buffers:
+        out.label("buffer_out-without-buffer")
+        continue
+      ids = sorted(buffers)
+      buffer_id = ids[step.get("which", 0) % len(ids)]
+      frame, in_port, buffer_origin = buffers.pop(buffer_id)
+      out.label("mode:buffer_out")
+      nt[0] = True
+      mode = "packet_out"
+    else:
+      frame = step["frame"]
+      in_port = step["in_port"]
+    is_packet_out = mode == "packet_out"
     actions = step.get("actions") or []
     problems = F12.validate(frame)
     if problems:
       raise HarnessError("generator produced an invalid input frame: %r %s" % (problems, frame.hex()))
     fclass, ntags, dis = frame_class(frame)
     is_frag = fclass.endswith("-fragment")
-    out.label("mode:" + mode, "frame:" + fclass, "tags:%d" % ntags)
+    if buffer_id is None:
+      out.label("mode:" + mode)
+    out.label("frame:" + fclass, "tags:%d" % ntags)
     if frame[:6] == R.STP_MAC:
       out.label("stp-dst")
     if "tcp" in dis and dis["tcp"]["options"]:
@@ -667,7 +690,7 @@ def _run(case, sw, out, nt):
     # ---- drive the switch
     try:
       if mode == "packet_out":
-        sw.send(enc_packet_out(frame, in_port, actions, sw.nx()))
+        sw.send(enc_packet_out(frame, in_port, actions, sw.nx(), buffer_id=buffer_id))
       else:
         sw.send(enc_flow_mod(3, OFPFW_ALL, 0, [], sw.nx()))            # OFPFC_DELETE everything
         flow = None
@@ -718,7 +741,7 @@ def _run(case, sw, out, nt):
         pktins.append(pi)
       elif t == OFPT_ERROR:
         out.label("error-reply")
-        if step["mode"] == "packet_out" and not emitted and _refusable(actions, port_state, True):
+        if is_packet_out and not emitted and _refusable(actions, port_state, True):
           refused = True                   # a packet-out with an output it cannot honour may be refused as a whole
 
     if refused and not pktins:
@@ -818,16 +841,24 @@ def _run(case, sw, out, nt):
       n = len(res.events)
       cuts = [n] + sorted(set(k for k, why in res.inapplicable if k < n), reverse=True)
       m = None
+      matched = None
       for k in cuts:
         mk = _match(res.events[:k], emitted, pktins, in_port, ctl_optional=no_pktin, miss_send_len=miss_send_len,
                     complete=(res.ambiguous is None) if k == n else True)
         if mk is None:
-          m = None
+          matched = res.events[:k]
           break
         if m is None:
           m = mk
-      if m is None:
+      if matched is not None:
         failures = []
+        # remember which frame each announced buffer holds: the one its packet-in showed
+        shown = [(e[1], "action" if e[0] == "ctl" else ("miss" if mode == "miss" else "table-miss"))
+                 for e in matched if e[0] in ("ctl", "miss")]
+        if len(pktins) >= len(shown):
+          for (fr, origin), pi in zip(shown, pktins):
+            if pi["buffer_id"] != NO_BUFFER:
+              buffers[pi["buffer_id"]] = (fr, in_port, origin)
         break
       failures.append(m)
     res = res0
@@ -856,6 +887,8 @@ def _run(case, sw, out, nt):
       disc = dict(disc)
       if clause in ("frame-bytes", "packet-in"):
         disc["frame"] = fclass          # byte-level damage is a matter of the frame kind; port decisions are not
+        if buffer_id is not None:
+          disc["buffer"] = buffer_origin  # ... or of what the switch kept in the buffer this packet-out released
       _vkey(out, clause, "step %d (%s, in_port %s, frame %s, actions %s):\n%s" % (
           si, mode, in_port, fclass, [SHORT[a["a"]] for a in actions], msg), **disc)
       return
@@ -934,9 +967,38 @@ def _payload(draw, odd_rate=2, maxlen=40):
   return draw(st.binary(min_size=n, max_size=n))
 
 
+def _tcp_option_layouts():
+  """Option areas as real stacks write them, with every kind of option as the LAST one, ending exactly at the data
+  offset, plus the padding variants (name, bytes)."""
+  T = F12.tcp_options
+  sack1 = ["sack", [[3000, 4000]]]
+  return [
+    ("mss", T([["mss", 1460]])),
+    ("mss-nop-nop-sackperm", T([["mss", 1460], ["nop"], ["nop"], ["sackperm"]])),
+    ("mss-nop-ws-nop-nop-sackperm", T([["mss", 1460], ["nop"], ["ws", 7], ["nop"], ["nop"], ["sackperm"]])),
+    ("nop-nop-sackperm", T([["nop"], ["nop"], ["sackperm"]])),
+    ("mss-sackperm-ts-nop-ws", T([["mss", 1460], ["sackperm"], ["ts", 0x11223344, 0], ["nop"], ["ws", 7]])),
+    ("nop-ws", T([["nop"], ["ws", 2]])),
+    ("nop-nop-ts", T([["nop"], ["nop"], ["ts", 0x01020304, 0x05060708]])),
+    ("nop-nop-sack", T([["nop"], ["nop"], sack1])),
+    ("ts-nop-nop-sack", T([["nop"], ["nop"], ["ts", 1, 2], ["nop"], ["nop"], sack1])),
+    ("nop-nop-unknown2", T([["nop"], ["nop"], ["raw", 254, b""]])),
+    ("unknown4", T([["raw", 253, b"\xab\xcd"]])),
+    ("mss-unknown2-unknown2", T([["mss", 536], ["raw", 28, b""], ["raw", 34, b""]])),
+    ("mss-nop-nop-nop-nop", T([["mss", 1460], ["nop"], ["nop"], ["nop"], ["nop"]])),
+    ("nop-nop-nop-nop", T([["nop"], ["nop"], ["nop"], ["nop"]])),
+    ("mss-ws-eol", T([["mss", 1460], ["ws", 7]], pad="eol")),
+    ("sackperm-eol-eol", T([["sackperm"]], pad="eol")),
+    ("nop-nop-nop-eol", b"\x01\x01\x01\x00"),
+    ("eol-eol-eol-eol", bytes(4)),
+  ]
+
+
 @st.composite
 def _tcp_opts(draw):
-  kind = draw(st.integers(0, 9))
+  kind = draw(st.integers(0, 11))
+  if kind >= 10:
+    return draw(st.sampled_from([b for n, b in _tcp_option_layouts()]))
   if kind <= 5:
     return b""
   opts = []
@@ -1202,8 +1264,18 @@ def case_strategy(draw):
   fm = draw(st.integers(0, 19))
   if fm >= 18:
     case["frag"] = 1 if fm == 18 else 2
-  ns = draw(st.sampled_from([1, 1, 1, 1, 1, 2, 2, 2, 3, 0]))
-  if ns == 0:
+  ns = draw(st.sampled_from([1, 1, 1, 1, 1, 2, 2, 2, 3, 0, -1]))
+  if ns == -1:
+    # buffered packet-out scenario: show the frame to the controller in the middle of a list that goes on rewriting it,
+    # then release the announced buffer with another list
+    first = draw(step_strategy(nports, mode=draw(st.sampled_from(["flow", "packet_out"]))))
+    acts = first["actions"][:3]
+    acts.insert(draw(st.integers(0, len(acts))), {"a": "output", "port": R.OFPP_CONTROLLER, "max_len": draw(st.sampled_from([0, 14, 60, 0xffff]))})
+    acts.append(draw(action_strategy(nports, False).filter(lambda a: a["a"] in REWRITES)))
+    acts.append({"a": "output", "port": draw(_phys_port(nports)), "max_len": 0})
+    first["actions"] = acts
+    case["steps"] = [first, {"mode": "buffer_out", "which": draw(st.integers(0, 3)), "actions": draw(_action_list(nports, True))}]
+  elif ns == 0:
     # OFPP_TABLE scenario: install a flow (its own frame is delivered too), then packet-out through the table
     first = draw(step_strategy(nports, mode=draw(st.sampled_from(["flow", "flow", "flow", "miss"]))))
     second = draw(step_strategy(nports, mode="packet_out"))
@@ -1234,6 +1306,9 @@ def case_strategy(draw):
         steps.append(pm)
       steps.append(d)
     case["steps"] = steps
+  if draw(st.integers(0, 3)) == 3:
+    # release a buffer announced by some earlier packet-in (skipped at run time if there is none)
+    case["steps"] = case["steps"] + [{"mode": "buffer_out", "which": draw(st.integers(0, 3)), "actions": draw(_action_list(nports, True))}]
   if draw(st.booleans()):
     case["stats_port"] = draw(_phys_port(nports))
   return case
@@ -1379,6 +1454,59 @@ def _sequence_cases():
         yield case
 
 
+def _tcp_layout_cases():
+  """Every option layout x payload {none, even, odd} x {untagged, tagged} x {no rewrite, each nw / tp rewrite} x {flow, packet-out}."""
+  S, D = "10.0.0.1", "10.0.0.2"
+  A, B = bytes.fromhex("0200000000a1"), bytes.fromhex("0200000000b2")
+  rewrites = [None, {"a": "set_nw_src", "v": 0x0a0000fe}, {"a": "set_nw_dst", "v": 0xc0a80001}, {"a": "set_nw_tos", "v": 0x20},
+              {"a": "set_tp_src", "v": 8080}, {"a": "set_tp_dst", "v": 1}]
+  for name, opts in _tcp_option_layouts():
+    for payload in (b"", b"payload!", b"odd"):
+      for vlan in (None, (2, 0, 77)):
+        fr = F.build_eth(B, A, F.ETH_IP, F.build_ipv4(S, D, 6, F.build_tcp(S, D, 40000, 80, payload, seq=7, ack=9, flags=0x18 if payload else 0x02,
+                                                                               options=opts), ident=21), vlan=vlan)
+        for rw in rewrites:
+          for mode in ("flow", "packet_out"):
+            step = {"mode": mode, "frame": fr, "in_port": 1,
+                    "actions": ([rw] if rw else []) + [{"a": "output", "port": 2, "max_len": 0}]}
+            if mode == "flow":
+              step["match"] = "all"
+            yield {"nports": 3, "steps": [step]}
+
+
+def _buffered_cases():
+  """[output:CONTROLLER, one field-modify action, output:2], then a packet-out releasing the announced buffer: it must
+  carry the frame as the packet-in showed it, not as the rest of the first list left it."""
+  S, D = "10.0.0.1", "10.0.0.2"
+  A, B = bytes.fromhex("0200000000a1"), bytes.fromhex("0200000000b2")
+  tcp = F.build_ipv4(S, D, 6, F.build_tcp(S, D, 1234, 80, b"buffered", seq=1, ack=2, flags=0x18), ident=31)
+  udp = F.build_ipv4(S, D, 17, F.build_udp(S, D, 1234, 4321, b"buffered"), ident=32)
+  icmp = F.build_ipv4(S, D, 1, F.echo(8, 1, 1, b"buffered"), ident=33)
+  frames = [F.build_eth(B, A, F.ETH_IP, tcp, vlan=(3, 0, 100)), F.build_eth(B, A, F.ETH_IP, udp),
+            F.build_eth(B, A, F.ETH_IP, icmp, vlan=(0, 0, 1)), F.build_eth(B, A, F.ETH_ARP, F.build_arp(1, A, S, bytes(6), D))]
+  acts = [{"a": "set_vlan_vid", "v": 7}, {"a": "set_vlan_pcp", "v": 5}, {"a": "strip_vlan"},
+          {"a": "set_dl_src", "v": bytes.fromhex("02aabbccdd01")}, {"a": "set_dl_dst", "v": bytes.fromhex("02aabbccdd02")},
+          {"a": "set_nw_src", "v": 0x0a0000fe}, {"a": "set_nw_dst", "v": 0x0a0000fd}, {"a": "set_nw_tos", "v": 0x20},
+          {"a": "set_tp_src", "v": 8080}, {"a": "set_tp_dst", "v": 8081}]
+  seconds = [[{"a": "output", "port": 3, "max_len": 0}],
+             [{"a": "set_dl_src", "v": bytes.fromhex("02aabbccdd09")}, {"a": "output", "port": R.OFPP_FLOOD, "max_len": 0}],
+             [{"a": "output", "port": R.OFPP_CONTROLLER, "max_len": 0xffff}, {"a": "set_nw_tos", "v": 0x40}, {"a": "output", "port": R.OFPP_IN_PORT, "max_len": 0}]]
+  for fr in frames:
+    for a in acts:
+      for mode in ("flow", "packet_out"):
+        for max_len in (0, 0xffff):
+          for second in seconds:
+            first = {"mode": mode, "frame": fr, "in_port": 1,
+                     "actions": [{"a": "output", "port": R.OFPP_CONTROLLER, "max_len": max_len}, a, {"a": "output", "port": 2, "max_len": 0}]}
+            if mode == "flow":
+              first["match"] = "all"
+            yield {"nports": 3, "steps": [first, {"mode": "buffer_out", "which": 0, "actions": second}]}
+  # a table miss buffers the frame as received
+  for fr in frames:
+    for second in seconds:
+      yield {"nports": 3, "steps": [{"mode": "miss", "frame": fr, "in_port": 1}, {"mode": "buffer_out", "which": 0, "actions": second}]}
+
+
 def plan(tier):
   n = 4000 if tier == "quick" else 300000
   return [
@@ -1387,5 +1515,7 @@ def plan(tier):
     Enum("grid-miss", lambda: _grid(tier, "miss"), shards=2),
     Enum("inapplicable-rewrites", _inapplicable_cases, shards=2),
     Enum("sequences", _sequence_cases, shards=16),
+    Enum("tcp-option-layouts", _tcp_layout_cases, shards=4),
+    Enum("buffered-packet-out", _buffered_cases, shards=2),
     Hyp("generated", case_strategy, examples=n, shards=16),
   ]
